@@ -15,6 +15,13 @@ code points; paths: components joined by `/`, a component = code points joined b
   `queue <u> <cps>`  `treq <u> <cps>`            → `reply=<-|REASON>|<uploads>`
   `cycle`                                        → `<uploads>`
   `meth <k> <method>`  `abort <k>`  `requeue <k>` → `<changed|refused|no-such-upload>|<uploads>`
+  `sfriends <u,u,…|->`  `sblocked <u:bits,…|->`  settings changed (assigned / mutated in place), nothing emitted → `<uploads>`
+  `poll`                                         one run of the user manager's polling job                → `<uploads>`
+  `reload <files> (<path> <alias> <mode>)*`      settings.shares.directories := the entries, load_from_settings(),
+                                                 scan_directory_files of each                              → result enum | `outside`
+  `scan <files>`                                 SharesManager.scan()                                      → `<uploads>`
+  `show`                                         → `<uploads>`
+Lists of users / blocked entries must be strictly increasing (canonical form of the Python set / dict), else `bad-op`.
 uploads = `flag=<0|1>|` then `<user>:<path cps>:<STATE>:<abort reason|->` per upload, in list order.
 -/
 open AioslskVerif AioslskVerif.Shares AioslskVerif.Entitle AioslskVerif.Transfer
@@ -44,7 +51,17 @@ def parseFiles (s : String) : Option (List (File Comp)) :=
     | [] => none
     | n :: d => some { dir := d.reverse, name := n }
 
+def increasing : List Nat → Bool
+  | a :: b :: l => a < b && increasing (b :: l)
+  | _ => true
+
 def parseNats (s : String) : Option (List Nat) := if s == "-" then some [] else parseCps s
+
+/-- a user list in canonical form -/
+def parseSet (s : String) : Option (List Nat) :=
+  match parseNats s with
+  | some l => if increasing l then some l else none
+  | none => none
 
 def parseBlocked (s : String) : Option (List (Nat × Nat)) :=
   if s == "-" then some [] else
@@ -53,12 +70,29 @@ def parseBlocked (s : String) : Option (List (Nat × Nat)) :=
     | [u, f] => do pure ((← u.toNat?), (← f.toNat?))
     | _ => none
 
+/-- the block list in canonical form: user names strictly increasing -/
+def parseBlockedC (s : String) : Option (List (Nat × Nat)) :=
+  match parseBlocked s with
+  | some l => if increasing (l.map (·.1)) then some l else none
+  | none => none
+
 def parseMode (s : String) : Option Mode :=
   if s == "everyone" then some .everyone
   else if s == "friends" then some .friends
   else match s.splitOn ":" with
     | ["users", us] => (parseNats us).map .users
     | _ => none
+
+/-- `<path> <alias> <mode>` triples -/
+def parseEntries : List String → Option (List DirInfo)
+  | [] => some []
+  | p :: a :: m :: rest => do
+    let p ← parsePath p
+    let a ← parseCps a
+    let m ← parseMode m
+    let l ← parseEntries rest
+    pure ({ path := p, alias := a, mode := m } :: l)
+  | _ => none
 
 def parsePhrases (s : String) : Option (List (List Nat)) :=
   if s == "-" then some [] else
@@ -98,6 +132,7 @@ def showObs (s : S) : Obs → String
   | .changed true => s!"changed|{showUploads s}"
   | .changed false => s!"refused|{showUploads s}"
   | .noSuchUpload => s!"no-such-upload|{showUploads s}"
+  | .outside => "outside"
 
 def doStep (d : DSt) (op : Op) : DSt × String :=
   let r := step d.s op
@@ -133,13 +168,31 @@ def handle (d : DSt) (line : String) : DSt × String :=
       ({ tab := tab, s := { d.s with cls := mkCls tab } }, "ok")
     | _, _, _, _ => (d, "bad-op")
   | ["friends", l] =>
-    match parseNats l with
+    match parseSet l with
     | some l => let r := doStep d (.setFriends l); (r.1, "ok")
     | none => (d, "bad-op")
   | ["blocked", l] =>
-    match parseBlocked l with
+    match parseBlockedC l with
     | some l => let r := doStep d (.setBlocked l); (r.1, "ok")
     | none => (d, "bad-op")
+  | ["sfriends", l] =>
+    match parseSet l with
+    | some l => doStep d (.mutFriends l)
+    | none => (d, "bad-op")
+  | ["sblocked", l] =>
+    match parseBlockedC l with
+    | some l => doStep d (.mutBlocked l)
+    | none => (d, "bad-op")
+  | ["poll"] => doStep d .poll
+  | ["show"] => (d, showUploads d.s)
+  | ["scan", fs] =>
+    match parseFiles fs with
+    | some fs => doStep d (.scanAll fs)
+    | none => (d, "bad-op")
+  | "reload" :: fs :: rest =>
+    match parseFiles fs, parseEntries rest with
+    | some fs, some es => doStep d (.reload es fs)
+    | _, _ => (d, "bad-op")
   | ["share", p, a, m, fs] =>
     match parsePath p, parseCps a, parseMode m, parseFiles fs with
     | some p, some a, some m, some fs => doStep d (.share { path := p, alias := a, mode := m } fs)
